@@ -246,6 +246,14 @@ def evaluate(case: Case, tier: str) -> Outcome:
         out.comparisons += 1
         bad = _check_roles(b.models, roles, out)
         if bad:
+
+            def again(alt: bool, inst: str = inst) -> bool:
+                b2 = oracle.solve(text, inst, case.consts, 4 * limit, alt=alt)
+                return b2.status == "ok" and bool(b2.models) and _check_roles(b2.models, roles, Outcome()) is not None
+
+            if not oracle.confirmed(again):
+                out.discards.append("solver_configurations_disagree")
+                continue
             out.status = "fail"
             out.failure = {"kind": bad[0], "detail": bad[1], "instance": inst, "route": route, "roles": [{k: v for k, v in r.items() if k != "key"} for r in roles], "attribution": {"pass": "dependency:" + route, "before": case.src, "after": text}}
             return out
